@@ -39,6 +39,18 @@ CHECKS = {
          "ordinals {NaN, below, above(2)}; histories <=3 ops exhaustive (quick: seeded sample of 700 per net), thorough + simulated 5-op histories. "
          "mode='heat' without stored hydraulics is treated as a usage error (any exception class) whose failure postconditions are still checked.",
     technique="TLA+ driver/history models (PPSolver, MC_Driver, MC_Hist) model-checked with TLC + replay into newton_raphson/pipeflow + trace validation (Trace_Solver)"),
+ "C12": dict(
+    level="model_checking",
+    text="Call histories on one net object are behaviours of the TLA+ machine MC_Hist (four modes, budgets, matrix-update/reuse options "
+         "with an explicit legitimacy rule for reuse, parameter / structural edits and their undo, stored user options, failing runs). "
+         "TLC emits all 3-op histories and simulated 5-op ones; each is replayed on real nets and every run is compared with the same "
+         "call on a fresh net object. The trace specification Trace_Hist states purity (no description digest changes across a run), "
+         "functional dependency of results on <description, options> (bit-identical digests) and heat-from-stored-hydraulics = sequential.",
+    design_ref="DESIGN.md 5 C12",
+    note="Trusted: harness/hist.py digests (bit-exact hashes of all element tables incl. dtypes/index/column order, fluid property values on a "
+         "probe grid, std types, user options minus hyd_flag, name/sector/component list). Three nets (heating loop, branched water net); "
+         "quick samples the exhaustive 3-op histories (640) and adds 180 simulated 5-op histories per seed.",
+    technique="TLA+ history machine (MC_Hist) + TLC-generated call histories replayed into pandapipes + digest trace validation (Trace_Hist)"),
 }
 NA_REASON = "check not built yet in this round (work in progress; see DESIGN.md section 5 for the planned decision procedure)"
 
